@@ -588,3 +588,21 @@ func (u *unitCtx) ifaceBodyMethod(ms methodSig, ptext string, pvars []varInfo, f
 	u.feature("interface_method_with_body")
 	return true
 }
+
+// ---------------------------------------------------------------------------------------
+// Opts.FieldChainCalls: System.out.println(..) and its like (false: nothing written).
+
+func (u *unitCtx) systemOutCall(level, depth int) bool {
+	t, w := u.g.t, u.w
+	if rapid.IntRange(0, 3).Draw(t, "systemOut") != 3 {
+		return false
+	}
+	form := rapid.SampledFrom([][2]string{{"System.out", "println"}, {"System.out", "println"}, {"System.err", "printf"}, {"System.out", "print"}, {"java.lang.System.out", "println"}}).Draw(t, "systemOutForm")
+	w.S(form[0] + ".")
+	line, col := w.Line(), w.Col()
+	w.S(form[1])
+	u.event(Event{Kind: "call", Name: form[1], Line: line, Col: col, Recv: "fieldchain"})
+	u.args(level, depth, false)
+	u.feature("call_on_static_field_of_library_class")
+	return true
+}
